@@ -21,6 +21,13 @@ What is **hypothesis**:
   every chain of C01's producer is one, `da_only_recovers_producer` below);
 * `OpOK` for every placed blob: a blob the DA classifier ACCEPTS is a part of that chain (the conclusion of C03's
   admission theorems; junk and forged blobs are not accepted and are unconstrained);
+* `OpOK` for a `p2p` operation: the events it delivers are **genuine parts of the chain**.  P2P *headers* are
+  signed (C03); P2P *data* is not — a junk data item (any `Data` that does not validate against the header of the
+  height it claims) is outside these histories.  `Spec.C02.C02_junk_data_harmless` proves for the sync loop alone that
+  such items never terminate the loop nor corrupt what the node holds (after /repo 4bb2ed2);
+  `Spec.C02.C02_converges_junk_fails` shows they can make it stall (recorded finding
+  `C02/stall/junk-p2p-data-replaced-cached-data`) — so "P2P data events are genuine" is a real hypothesis of every
+  convergence statement below that allows `p2p` operations;
 * for convergence only: `DistinctCommitments` (the hypothesis of C02's recorded finding), no fetch answered
   "not found" in the final run, and the final scan reaches the head of the DA layer.
 -/
